@@ -249,18 +249,35 @@ def processRun (run : Str × List Feat) : R Group := do
   let ts' := if ts.length > 1 && cs.length > 1 then ts.take 1 else ts
   pure ⟨run.1, g, ts', cs⟩
 
-/-- the outer `for locus_tag, gene_features in itertools.groupby(...)` loop (the first error aborts it) -/
+/-- `gene_feature is None and not transcript_features and not cds_features`: only features of unknown types carry
+    the locus tag -/
+def emptyGroup (g : Group) : Bool := g.gene.isNone && g.transcripts.isEmpty && g.cdss.isEmpty
+
+/-- the outer `for locus_tag, gene_features in itertools.groupby(...)` loop (the first error aborts it).
+    Since 48a0909 a tag carried only by features of unknown type is skipped (`continue`: "each was warned about:
+    no gene to build") instead of yielding an empty group (which later raised IndexError). -/
 def processRuns : List (Str × List Feat) → R (List Group)
   | [] => pure []
   | r :: rs => do
     let g ← processRun r
     let gs ← processRuns rs
+    pure (if emptyGroup g then gs else g :: gs)
+
+/-- the loop before 48a0909: every tag yields a group -/
+def processRunsBefore : List (Str × List Feat) → R (List Group)
+  | [] => pure []
+  | r :: rs => do
+    let g ← processRun r
+    let gs ← processRunsBefore rs
     pure (g :: gs)
 
 def groupSorted (fs : List Feat) : R (List Group) := processRuns (groupRuns fs)
 
 /-- sort (LocusTagGenBankParser._extract_seqfeatures_from_seqrecords) + `_group_features_by_locus_tag` -/
 def groupByLocusTag (fs : List Feat) : R (List Group) := groupSorted (sortByTag fs)
+
+/-- the grouping before 48a0909 (regression witness) -/
+def groupByLocusTagBefore (fs : List Feat) : R (List Group) := processRunsBefore (groupRuns (sortByTag fs))
 
 /-! ### gene biotype (GeneFeature.to_gene_model, io/genbank/parser.py) -/
 
